@@ -131,6 +131,7 @@ pub fn run(seed: u64, ntraces: usize) {
         let mut chains: Vec<(Vec<u8>, Vec<u8>)> = vec![(b"ethereum".to_vec(), b"0xITSeth".to_vec()), (b"avalanche".to_vec(), b"hub".to_vec()), (b"polygon".to_vec(), b"0xITSpoly".to_vec())];
         if hub_set { chains.push((b"axelar".to_vec(), b"axelar1hub".to_vec())); }
         chains.push((b"axelarnet".to_vec(), b"0xITSnet".to_vec()));       // a directly trusted chain whose name has the hub's name as a prefix
+        chains.push((b"twin".to_vec(), b"axelar1hub".to_vec()));          // a directly trusted chain whose peer address string equals the hub's: it still is not the hub chain
         // the service's own chain name: mixed case in every fourth trace (it is hashed into every token id exactly as given)
         let own_chain: Vec<u8> = if t % 4 == 3 { b"MultiversX-D1".to_vec() } else { b"multiversx".to_vec() };
         let mut args = vec![gw.to_vec(), gas.to_vec(), tmt.to_vec(), operator.to_vec(), own_chain.clone(), big(chains.len() as u64)];
@@ -215,7 +216,7 @@ pub fn run(seed: u64, ntraces: usize) {
             if d == 7 { script.extend([10u64, 2, 15, 10]); }       // pause, try step 3 and a remote deployment, unpause
             else if d == 3 { script.extend([47u64, 46, 23, 46, 3]); }  // steps called with different arguments: (1000, minter) then (0, no minter)
             else { script.extend([3u64, 23, 3, 3]); }
-            if d == 2 { script.extend([40u64, 50, 43, 41, 40, 19, 41, 40, 41]); }   // the minter approves a remote deployment, hands the role on, then the stale approval is used                   // step 3, second issuance callback, step 3 again (twice)
+            if d == 2 { script.extend([40u64, 50, 43, 41, 40, 19, 41, 40, 41]); script.extend([40u64, 51, 67, 53, 69, 41]); }   // ... then: an approval is replaced while its chain is no longer trusted (refused), the chain is trusted again, the replacement is not usable, the original is   // the minter approves a remote deployment, hands the role on, then the stale approval is used                   // step 3, second issuance callback, step 3 again (twice)
         }
         if d == 1 || d == 6 || d >= 10 {
             // (1) an inbound link / deploy message for a token id that is already bound; (6) hub-wrapped inbound messages while paused
@@ -235,11 +236,11 @@ pub fn run(seed: u64, ntraces: usize) {
                     script.push(22);
                     let ow = g.owner.clone();
                     let (okp, _, _) = g.its_tx("pause", &ow, "pause", vec![], 0, &[], json!({"paused": true})); if okp { g.paused = true; }
-                    script.extend([1602u64, 1702, 1802, 1600, 3090, 3290, 3590, 3291, 3490, 3990, 10, 1602]);
+                    script.extend([1602u64, 1702, 1802, 1600, 3090, 3290, 3590, 3291, 3490, 3990, 56, 57, 58, 10, 1602]);
                 }
                 else if d == 10 {   // inbound battery: every routing variant for a transfer without data, the main ones for transfers with data and deployments
-                    for v in 0..18u64 { script.push(1600 + v); }
-                    script.extend([1700u64, 20, 20, 1702, 1708, 1709, 1711, 1713, 1714, 1716, 1808, 1800, 1802, 1809, 1811, 1813, 1815, 1816, 195]);
+                    for v in 0..20u64 { script.push(1600 + v); }
+                    script.extend([1700u64, 20, 20, 1702, 1708, 1709, 1711, 1713, 1714, 1716, 1808, 1800, 1802, 1809, 1811, 1813, 1815, 1816, 1818, 1718, 195, 198]);
                 }
                 else if d == 11 {   // the service is paused while a transfer with data is in flight: failed and successful delivery, direct and hub-wrapped
                     script.extend([1700u64, 10, 21, 20, 10, 1702, 10, 20, 20, 10, 1700, 21, 10, 20, 10, 1700, 1700, 21, 24, 20, 20]);   // last part: a delivery fails while another of the same token is in flight
@@ -275,7 +276,7 @@ pub fn run(seed: u64, ntraces: usize) {
                         g.its_tx("deployRemoteCanonical", &u2, "deployRemoteCanonicalInterchainToken", vec![tk.clone(), vec![]], gasv, &[], json!({"token": hx(&tk), "dchain": ""})); }
                     // (b) the trusted address of the source chain is removed / replaced while a transfer with data is in flight and restored afterwards:
                     //     the delivered message must end up executed and a second execute must be refused
-                    script.extend([22u64, 56, 1700, 51, 25, 24, 53, 197, 1700, 25, 54, 24, 53, 197, 1702, 52, 25, 24, 55, 197, 57]);
+                    script.extend([22u64, 56, 1700, 51, 25, 24, 53, 197, 1700, 25, 54, 24, 53, 197, 1702, 52, 25, 24, 55, 197, 70, 57]);
                 }
                 else {              // d == 13: message-type words outside the known range, direct and hub-wrapped
                     for i in 0..6u64 { script.push(2000 + i); script.push(2100 + i); }
@@ -293,7 +294,7 @@ pub fn run(seed: u64, ntraces: usize) {
             let has_pending = !g.pend.is_empty();
             let scripted = !script.is_empty();
             let a = if !script.is_empty() { script.remove(0) } else if has_pending && r.chance(1, 2) { 20 } else { *r.pick(&[0u64, 1, 2, 3, 3, 3, 4, 4, 4, 5, 5, 5, 6, 6, 6, 7, 7, 7, 7, 8, 9, 10, 11, 12, 12, 13, 14, 14, 15, 16, 17, 18, 19, 19]) };
-            let a_raw = a; let a = if a == 56 || a == 57 { 0 } else if a == 58 { 1 } else if (59..=61).contains(&a) { 17 } else { a };
+            let a_raw = a; let a = if a == 56 || a == 57 { 0 } else if a == 58 { 1 } else if (59..=61).contains(&a) { 17 } else if a == 198 { 1600 } else { a };
             let force_fail = a == 21; let force_props_ok = a == 22; let force_issue_ok = a == 23; let force_cb = a == 24; let force_ok = a == 25;
             let a = if a == 21 || a == 22 || a == 23 || a == 24 || a == 25 { 20 } else { a };
             // 1<a><vv>: inbound message kind a (6, 7, 8) in routing variant vv; 20<i> / 21<i>: message-type word i (direct / hub-wrapped); 3<shape><chain> / 35..: outbound transfer / call; 190..192: inbound link / deploy for an already bound token id (direct, hub-wrapped, deploy)
@@ -317,6 +318,11 @@ pub fn run(seed: u64, ntraces: usize) {
                     for _ in 0..2 { g.gw_approve(&m);
                         g.its_tx("execute", &g.relayer.clone(), "execute", vec![b"ethereum".to_vec(), id.clone(), b"0xITSeth".to_vec(), payload.clone()], 0, &[],
                             json!({"chain": hx(b"ethereum"), "id": hx(&id), "src": hx(b"0xITSeth"), "payload": hx(&payload), "ph": hx(&keccak(&payload)), "label": "in6/reapproved"})); } }
+                continue; }
+            if a == 70 { // the owner sends an upgrade transaction carrying constructor arguments with ANOTHER chain name: `upgrade` takes no arguments, the call is refused
+                let ow = g.owner.clone();
+                let args = vec![g.gw.to_vec(), g.gas.to_vec(), tmt.to_vec(), g.operator.to_vec(), b"OtherChain".to_vec(), big(0), big(0)];
+                g.its_tx("upgrade", &ow, "upgrade", args, 0, &[], json!({"chain": hx(b"OtherChain")}));
                 continue; }
             if a == 197 { // the last inbound message executed once more, exactly as it was (no new approval)
                 if let Some((chain, id, src, payload)) = g.last_in.clone() {
@@ -432,9 +438,11 @@ pub fn run(seed: u64, ntraces: usize) {
                                 deploy_payload(&tid2, b"Remote", b"RMT", 6, &minter)
                              } else { link_payload(&if fbound.is_some() || (ti.is_some() && r.chance(1, 3)) { tid.clone() } else { r.bytes(32) }, *r.pick(&[0u8, 2, 4]), b"0xsrc", if r.chance(1, 5) { b"bad" } else { &tok2[..] }, &match r.below(5) { 0 | 1 => vec![], 2 => { let mut v = g.operator.to_vec(); v.push(3); v }, _ => g.operator.to_vec() }) },
                     };
+                    // an amount word above 2^128 (legal uint256): one transfer in ten, and always for the directed code 198
+                    let inner = if (a == 6 || a == 7) && ((fvar.is_none() && r.chance(1, 10)) || a_raw == 198) { let mut p = inner; p[128 + 15] |= 1; p } else { inner };
                     let inner = if let Some(i) = ftype { let mut p = inner.clone(); for b in p[0..32].iter_mut() { *b = 0; }
                         match i { 0 => p[24] = 0x80, 1 => p[23] = 1, 2 => p[0] = 0x80, 3 => p[31] = 6, 4 => p[31] = 7, _ => p[27] = 1 }; p } else { inner };
-                    let variant = if let Some(v) = fvar { v } else if g.paused && r.chance(1, 3) { 2 } else if r.chance(2, 3) { 0 } else { r.below(18) };
+                    let variant = if let Some(v) = fvar { v } else if g.paused && r.chance(1, 3) { 2 } else if r.chance(2, 3) { 0 } else { r.below(20) };
                     let (chain, src, payload): (Vec<u8>, Vec<u8>, Vec<u8>) = match variant {
                         1 => (b"avalanche".to_vec(), b"hub".to_vec(), inner.clone()),                                   // direct message from a hub-routed chain
                         2 => (b"axelar".to_vec(), b"axelar1hub".to_vec(), hub_wrap(b"avalanche", &inner, 4)),           // properly wrapped
@@ -452,6 +460,8 @@ pub fn run(seed: u64, ntraces: usize) {
                         15 => (b"axelar".to_vec(), b"AXELAR1HUB".to_vec(), hub_wrap(b"avalanche", &inner, 4)),            // the hub's address in another letter case
                         16 => (b"axelar".to_vec(), b"axelar1evil".to_vec(), hub_wrap(b"avalanche", &inner, 4)),           // properly wrapped, from the hub's chain, but not from the hub's address
                         17 => (b"ethereum".to_vec(), b"0xITSet".to_vec(), inner.clone()),                                 // a proper prefix of the trusted address
+                        18 => (b"twin".to_vec(), b"axelar1hub".to_vec(), hub_wrap(b"avalanche", &inner, 4)),                // wrapped, from a direct chain whose peer address equals the hub's: not from the hub chain
+                        19 => (b"twin".to_vec(), b"axelar1hub".to_vec(), inner.clone()),                                  // the same chain speaking for itself: processed as direct
                         _ => (b"ethereum".to_vec(), b"0xITSeth".to_vec(), inner.clone()),
                     };
                     let approve = variant != 8;
@@ -582,11 +592,12 @@ pub fn run(seed: u64, ntraces: usize) {
                     g.its_tx("deployRemote", &deployer, "deployRemoteInterchainTokenWithMinter", vec![salt.clone(), minter.clone(), dchain.clone(), dm.clone()], 1000, &[],
                         json!({"salt": hx(&salt), "minter": hx(&minter), "dchain": hx(&dchain), "dminter": Some(hx(&dm))}));
                 }
-                40 | 41 => { // directed: the nominated minter of the last native token approves (40) / the deployer uses (41) a remote deployment with a custom minter
+                40 | 41 | 67 | 69 => { // 67 / 69: as 40 / 41 with ANOTHER destination minter
+                    // directed: the nominated minter of the last native token approves (40) / the deployer uses (41) a remote deployment with a custom minter
                     let Some(tk) = g.toks.iter().rev().find(|t| t.kind == "native" && t.minter.len() == 32) else { continue; };
                     let (deployer, salt, minter) = (tk.deployer.clone(), tk.salt.clone(), tk.minter.clone());
-                    let (dchain, dm) = (b"ethereum".to_vec(), b"0xremoteminter".to_vec());
-                    if a == 40 { let caller = VMAddress::new(minter.clone().try_into().unwrap());
+                    let (dchain, dm) = (b"ethereum".to_vec(), if a == 67 || a == 69 { b"0xotherminter".to_vec() } else { b"0xremoteminter".to_vec() });
+                    if a == 40 || a == 67 { let caller = VMAddress::new(minter.clone().try_into().unwrap());
                         g.its_tx("approveRemote", &caller, "approveDeployRemoteInterchainToken", vec![deployer.to_vec(), salt.clone(), dchain.clone(), dm.clone()], 0, &[],
                             json!({"deployer": hx(deployer.as_bytes()), "salt": hx(&salt), "dchain": hx(&dchain), "dminter": hx(&dm)})); }
                     else { g.its_tx("deployRemote", &deployer, "deployRemoteInterchainTokenWithMinter", vec![salt.clone(), minter.clone(), dchain.clone(), dm.clone()], 1000, &[],
